@@ -216,6 +216,17 @@ MatmulClauses(A1, A2, B1, B2, cls, Rr, dv) ==
               <<"pointwise_inner_product", SamplesCover(dv, ks, d) =>
                     \A u \in S : ObsVal(dv, u) = Add(Mul(Eval(A1, u), Eval(B1, u)), Mul(Eval(A2, u), Eval(B2, u)))>>})
 
+(* one coordinate of M @ A (or A @ M) for a 2-D curve A = (A1, A2): R(u) = a A1(u) + b A2(u) *)
+LinearClauses(a, b, A1, A2, cls, Rr, dv) ==
+  IF cls # "ok" THEN {"operation_succeeds"}
+  ELSE IF ~ConsistentCurve(Rr) \/ Limits(Rr.U) # Limits(A1.U) THEN {"result_consistent"}
+  ELSE LET ks == CommonBreaks(A1.U, Rr.U)
+           d  == 2 * Deg(A1.U) + Deg(Rr.U)
+           S  == SamplePts(ks, d) IN
+       Fails({<<"samples_cover", SamplesCover(dv, ks, d)>>,
+              <<"pointwise_linear_combination", SamplesCover(dv, ks, d) =>
+                    \A u \in S : ObsVal(dv, u) = Add(Mul(a, Eval(A1, u)), Mul(b, Eval(A2, u)))>>})
+
 (* scalar forms: result(u) = f(A(u)) with f given by (op, s) *)
 ScalarValue(op, s, x) ==
   CASE op = "s+A" -> Add(s, x) [] op = "A+s" -> Add(x, s) [] op = "s-A" -> Sub(s, x)
